@@ -84,6 +84,8 @@ def kinds(docs):
         "get-other-path": (b"GET /x HTTP/1.1\r\nHost: t\r\nConnection: close\r\n\r\n", b"", 404, None),
         "garbage": (b"\x00\x01 this is not http\r\n\r\n", b"", "reject", None),
         "abandon": (post(b"x" * 1000), b"x" * 100, "abandon", None),
+        # sends a complete, slow request and hangs up while it is being converted
+        "impatient": (post(BIG_FULL.encode()), BIG_FULL.encode(), "impatient", None),
     }
     return k
 
@@ -178,7 +180,7 @@ def send_all(c, data):
 
 def judge_response(kind, spec, status, body):
     _head, _body, want_status, want_body = spec
-    if want_status == "abandon":
+    if want_status in ("abandon", "impatient"):
         return []
     if want_status == "reject":
         if status in (400, "closed"):
@@ -202,6 +204,10 @@ def do_request(port, kind, spec):
         send_all(c, head)
         send_all(c, body)
         if want_status == "abandon":
+            c.close()
+            return []
+        if want_status == "impatient":
+            time.sleep(0.15)
             c.close()
             return []
         status, rbody = read_response(c)
@@ -270,8 +276,10 @@ def run_interleaving(kinds_, order, K, server):
             elif ev == "body2":
                 send_all(socks[ci], body[split_point(body):])
             else:
-                if want_status == "abandon":
-                    # the client walks away in the middle of its body
+                if want_status in ("abandon", "impatient"):
+                    # the client walks away (in the middle of its body / while its request is converted)
+                    if want_status == "impatient":
+                        time.sleep(0.15)
                     socks[ci].close()
                     continue
                 status, rbody = read_response(socks[ci])
@@ -310,6 +318,9 @@ def main():
     K = kinds(docs)
     if mode == "replay":
         rp = json.load(open(sys.argv[2]))
+        if rp["kind"] == "burst":
+            print("a burst is a sample of machine schedules and cannot be replayed exactly; re-run ./check C20 quick")
+            sys.exit(0)
         if rp["kind"] == "sequence":
             errs = run_sequence(rp["case"]["seq"], K)
         else:
@@ -327,7 +338,7 @@ def main():
     seed = int(os.environ.get("VERIF_SEED", "0") or 0)
     t0 = time.time()
     names = list(K)
-    cheap = [k for k in names if k not in ("post-too-big", "post-20k", "post-at-limit", "post-dense-unicode")]
+    cheap = [k for k in names if k not in ("post-too-big", "post-20k", "post-at-limit", "post-dense-unicode", "impatient")]
     # (a) sequences
     fresh = [(k,) for k in names] + [p for p in itertools.product(names, repeat=2)]
     chained = list(itertools.product(cheap, repeat=3))
@@ -360,6 +371,49 @@ def main():
         chunks.append(list(chained))
         for out in ex.map(chained_job, chunks):
             results.extend(out)
+    # impatient clients followed by ordinary requests, on one long-lived server
+    def impatient_job(_):
+        srv = Server()
+        out = []
+        try:
+            for seq in (["impatient", "post-small"], ["impatient", "impatient", "post-hostile", "get"], ["post-small", "impatient", "post-cjk", "post-small"]):
+                out.append(("sequence", {"seq": seq, "server": "long-lived"}, run_sequence(seq, K, srv)))
+                time.sleep(2.0)  # let the abandoned conversions finish
+                out.append(("sequence", {"seq": ["post-small", "post-20k"], "server": "long-lived after impatient clients"}, run_sequence(["post-small", "post-20k"], K, srv)))
+        finally:
+            srv.stop()
+        return out
+
+    def burst_job(_):
+        """supplementary (a sample of machine schedules, can only add violations): 16 free-running clients, each posting its own body repeatedly"""
+        srv = Server()
+        errs = []
+        bodies = ["+--+ %d\n|  |\n+--+" % i for i in range(14)]
+        want = library_docs(bodies)
+        rounds = 60 if tier == "quick" else 400
+
+        def client(i):
+            e = []
+            spec = (("POST / HTTP/1.1\r\nHost: t\r\nContent-Length: %d\r\nConnection: close\r\n\r\n" % len(bodies[i].encode())).encode(), bodies[i].encode(), 200, want[bodies[i]])
+            for r in range(rounds):
+                for x in do_request(srv.port, "burst-client-%d" % i, spec):
+                    e.append("round %d: %s" % (r, x))
+                    return e
+            return e
+
+        try:
+            with ThreadPoolExecutor(14) as ex2:
+                for e in ex2.map(client, range(14)):
+                    errs.extend(e)
+        finally:
+            srv.stop()
+        return [("burst", {"clients": 14, "rounds": rounds}, errs)]
+
+    with ThreadPoolExecutor(2) as ex:
+        for out in ex.map(impatient_job, [0]):
+            results.extend(out)
+        for out in ex.map(burst_job, [0]):
+            results.extend(out)
     # (b) interleavings of client events
     pairs = [("post-small", "post-hostile"), ("post-small", "get"), ("post-bad-utf8", "post-small"), ("post-small", "post-small"),
              ("abandon", "post-small"), ("garbage", "post-cjk"), ("post-cjk", "post-cjk"), ("put", "post-empty"), ("post-20k", "post-small"), ("post-too-big", "post-small")]
@@ -391,10 +445,10 @@ def main():
         for out in ex.map(inter_job, chunks):
             results.extend(out)
     violations = [(k, c, r) for (k, c, r) in results if r]
-    requests = sum(len(c.get("seq", c.get("kinds", []))) + 1 for (_, c, _) in results)
+    requests = sum((len(c.get("seq", c.get("kinds", []))) + 1) if "clients" not in c else c["clients"] * c["rounds"] for (_, c, _) in results)
     outcomes = set()
     for (k, c, r) in results:
-        outcomes.add((k, json.dumps(c.get("seq", c.get("kinds")))))
+        outcomes.add((k, json.dumps(c.get("seq", c.get("kinds", c.get("clients"))))))
     os.makedirs(VERIF + "/replays/" + PROP, exist_ok=True)
     for (k, c, r) in violations[:5]:
         h = hashlib.sha1(json.dumps([k, c], sort_keys=True).encode()).hexdigest()[:16]
@@ -447,8 +501,10 @@ def run_interleaving3(kinds_, order, K, server):
             elif ev == "body":
                 send_all(socks[ci], body)
             else:
-                if want_status == "abandon":
-                    # the client walks away in the middle of its body
+                if want_status in ("abandon", "impatient"):
+                    # the client walks away (in the middle of its body / while its request is converted)
+                    if want_status == "impatient":
+                        time.sleep(0.15)
                     socks[ci].close()
                     continue
                 status, rbody = read_response(socks[ci])
